@@ -162,7 +162,7 @@ def harnesses(tier, seed):
                 if sig is not None:
                     ctx.outcome(sig[:3])
 
-    return [{"name": "long-series", "body": long_body,
+    return [W.every_n_harness("C05", PREFIX, quick), W.derived_threshold_harness("C05", PREFIX, quick), {"name": "long-series", "body": long_body,
              "bound_text": "every length 3..%d, 2^k+1 and around every integer constant of the code up to %d" % (40 if quick else 72, lsizes[-1])},
             {"name": "window-invariants", "body": body}, {"name": "window-invariants-6pt", "body": body6},
             {"name": "pconst+spline", "body": simple_body}, {"name": "constant-series", "body": const_body}]
